@@ -301,15 +301,18 @@ def run(ck):
     # =============================================================== printed sizes
     def printed_section():
         import re
-        rx = re.compile(r"^(\d+)(?:\.(\d\d))? (k|M|G|T|P|E|)(i?)B$")
+        rx = re.compile(r"^(\d+)(?:\.(\d+))? (k|M|G|T|P|E|)(i?)B$")
 
-        def exact_value(text):
+        def read_printed(text):
+            """(value denoted by the printed string, half a unit of its last printed digit), both exact Fractions."""
             m = rx.match(text)
             if not m:
-                return None
-            whole, cents, sc, i = m.groups()
+                return None, None
+            whole, frac, sc, i = m.groups()
             unit = (1024 if i else 1000) ** {"": 0, "k": 1, "M": 2, "G": 3, "T": 4, "P": 5, "E": 6}[sc]
-            return Fraction(int(whole) * 100 + int(cents or 0), 100) * unit
+            frac = frac or ""
+            val = Fraction(int(whole + frac), 10 ** len(frac)) * unit
+            return val, Fraction(unit, 2 * 10 ** len(frac))
 
         def one(s, si):
             ck.mon("printed-size-oracle")
@@ -317,28 +320,52 @@ def run(ck):
             if not ok:
                 ck.violation("abbreviate_space-raises", "abbreviate_space raised %s" % type(text).__name__, {"size": s, "SI": si})
                 return
-            val = exact_value(text)
+            val, half_digit = read_printed(text)
             if val is None:
                 ck.observe("printed-size-unrecognised-format")
                 return
-            if val != s:
-                ck.skip("printed-size-rounded-not-exact")     # statement judged only for exactly representable values
-                return
-            ck.hit("printed-size-exact")
             okp, got = attempt(ab.parse_abbreviated_size, text)
-            if not okp:
-                mech = "printed-size-with-decimals-unparseable" if "." in text else "printed-size-with-space-unparseable"
-                ck.violation(mech, "abbreviate_space(%d) prints %r, which denotes exactly %d bytes, but "
-                             "parse_abbreviated_size rejects it (%s); contradicts %s"
-                             % (s, text, s, type(got).__name__, STMT_PRINTED), {"size": s, "SI": si, "printed": text})
-            elif got != s:
-                ck.violation("printed-size-parses-to-other-value", "abbreviate_space(%d) prints %r which parses back to "
-                             "%r; contradicts %s" % (s, text, got, STMT_PRINTED), {"size": s, "printed": text, "got": got})
+            wit = {"size": s, "SI": si, "printed": text}
+            if val == s:
+                ck.hit("printed-size-exact")
+                if not okp:
+                    mech = "printed-size-with-decimals-unparseable" if "." in text else "printed-size-with-space-unparseable"
+                    ck.violation(mech, "abbreviate_space(%d) prints %r, which denotes exactly %d bytes, but "
+                                 "parse_abbreviated_size rejects it (%s); contradicts %s"
+                                 % (s, text, s, type(got).__name__, STMT_PRINTED), wit)
+                elif got != s:
+                    ck.violation("printed-size-parses-to-other-value", "abbreviate_space(%d) prints %r which parses back to "
+                                 "%r; contradicts %s" % (s, text, got, STMT_PRINTED), dict(wit, got=got))
+            else:
+                # a rounded print cannot come back as the same number; the weakest reading of "parse back to the same
+                # value" is: back to within the precision that was printed (half a unit of the last printed digit,
+                # plus slack for the float division the printer uses)
+                ck.hit("printed-size-rounded")
+                if not okp:
+                    if val.denominator != 1:
+                        ck.skip("printed-size-not-a-whole-number-of-bytes-refused")    # e.g. "1.43 MiB": left open
+                    else:
+                        ck.violation("printed-size-with-decimals-unparseable", "abbreviate_space(%d) prints %r, a whole "
+                                     "number of bytes, but parse_abbreviated_size rejects it (%s); contradicts %s"
+                                     % (s, text, type(got).__name__, STMT_PRINTED), wit)
+                else:
+                    slack = half_digit + Fraction(abs(s), 10 ** 12) + 1
+                    if abs(got - s) > slack:
+                        ck.violation("printed-size-parses-to-other-value",
+                                     "abbreviate_space(%d) prints %r, which parses back to %d: off by %d bytes, more than "
+                                     "half a unit of the last printed digit (%s bytes); contradicts %s"
+                                     % (s, text, got, abs(got - s), int(half_digit), STMT_PRINTED), dict(wit, got=got))
+                    else:
+                        ck.skip("printed-size-rounded-parses-back-within-printed-precision")
             # the combined form is the two single forms
             okb, both = attempt(ab.abbreviate_space_both, s)
             if okb and both != "(%s, %s)" % (ab.abbreviate_space(s, True), ab.abbreviate_space(s, False)):
                 ck.observe("abbreviate_space_both-differs-from-parts")
 
+        for s0 in (1999999, 999999, 7998, 2 * 1024 * 1024 - 1, 1024 ** 3 - 1):     # carry into the next whole unit
+            for si0 in (True, False):
+                one(s0, si0)
+                ck.case("printed-size", key=(s0, si0), nontrivial=True)
         for s0 in (123, 0, 1023, 2000, 1500000, 1536 * 1024):       # minimal witnesses first
             one(s0, s0 != 1536 * 1024)
             ck.case("printed-size", key=(s0, s0 != 1536 * 1024), nontrivial=True)
@@ -362,6 +389,14 @@ def run(ck):
                 s = c * U ** k // 100
                 if s < 1024:
                     s = 1024 * 2
+            elif r < 0.93:
+                # fractional part >= 0.995 in the chosen unit: the two decimals round up into the next whole number
+                k = rng.randint(1, 6)
+                U = 1000 if si else 1024
+                j = rng.choice([1, 2, 8, 9, 10, 99, 100, 999, U - 1, U, rng.randint(1, U)])
+                s = j * U ** k - rng.choice([1, 2, max(1, U ** k // 200), rng.randint(1, max(1, U ** k // 200))])
+                s = max(s, 1024)
+                ck.hit("printed-size-just-below-whole-unit")
             else:
                 s = rng.randint(1024, 10 ** rng.randint(4, 20))      # mostly inexact
             one(s, si)
@@ -719,6 +754,7 @@ def run(ck):
                        "duration-oracle", "duration-linearity-oracle", "duration-malformed-oracle",
                        "date-oracle", "date-malformed-oracle", "iso-roundtrip-oracle")
     ck.require_reach("size-documented-spelling", "size-through-client", "size-malformed-rejected", "printed-size-exact",
+                     "printed-size-rounded", "printed-size-just-below-whole-unit",
                      "duration-accepted:day", "duration-accepted:month", "duration-accepted:year",
                      "duration-through-client", "duration-malformed-rejected", "date-valid", "date-through-client",
                      "date-malformed-rejected", "iso-roundtrip")
@@ -740,3 +776,8 @@ def run(ck):
 #  7. client.py: o_l_d = parse_duration(o_l_d) + 1                        -> caught through the client path (duration-day-wrong-value)
 #  8. client.py: reads "reserved-space" instead of "reserved_space"       -> caught through the client path (size-malformed-accepted:*, size-wrong-value)
 #  9. time_format.parse_duration: "mo" mapped to 60 seconds               -> caught (duration-month-not-31-days, duration-not-linear-or-spellings-disagree)
+# 10. seeded/C48-4 and twins in selftest/breaks_c48.py (abbreviate_space: hundredths rounding up to 100 not carried,
+#     SI kilobytes divided by 1024, decimals truncated instead of rounded)                          -> caught
+#     (printed-size-parses-to-other-value: a rounded print must parse back to within half a unit of its last printed
+#     digit; binary prints that are not a whole number of bytes are refused by the parser on the unchanged tree and
+#     stay open: dont_care printed-size-not-a-whole-number-of-bytes-refused)
